@@ -42,12 +42,13 @@ pub struct DupMon {
     /// tasks whose sends are judged (server workers); others (e.g. the bundled client's worker) are not
     run: BTreeMap<TaskId, (Arc<[u8]>, u64)>,
     listener_last: BTreeMap<SocketAddr, Arc<[u8]>>,
+    last_worker_error: BTreeMap<TaskId, Arc<[u8]>>,
     pub probes: BTreeMap<&'static str, u64>,
 }
 
 impl DupMon {
     pub fn new(n: u64) -> DupMon {
-        DupMon { attr: Attr::default(), n, run: BTreeMap::new(), listener_last: BTreeMap::new(), probes: BTreeMap::new() }
+        DupMon { attr: Attr::default(), n, run: BTreeMap::new(), listener_last: BTreeMap::new(), last_worker_error: BTreeMap::new(), probes: BTreeMap::new() }
     }
 
     fn close_run(&mut self, task: TaskId) -> Option<Violation> {
@@ -91,6 +92,13 @@ impl Monitor for DupMon {
                 }
                 let judged = matches!(rfc::decode(data), Some(Pkt::Data { .. }) | Some(Pkt::Ack(_)));
                 if !judged {
+                    // an ERROR reply of a worker (e.g. to a bad OACK acknowledgement) is sent once
+                    if matches!(rfc::decode(data), Some(Pkt::Error { .. })) {
+                        if self.last_worker_error.get(t).map_or(false, |d| **d == **data) {
+                            return Some(Violation::new("C16", "C16.error_reply_repeated", format!("task{t} sent {} more than once", rfc::summary(data))));
+                        }
+                        self.last_worker_error.insert(*t, data.clone());
+                    }
                     return self.close_run(*t);
                 }
                 match self.run.get_mut(t) {
